@@ -51,6 +51,7 @@ pub enum Kind {
     ShadowInner,
     ShadowOuter,
     ParamTwoTypes,
+    ItemAfterMain,
 }
 
 pub const ALL_KINDS: &[Kind] = &[
@@ -60,7 +61,7 @@ pub const ALL_KINDS: &[Kind] = &[
     Kind::AliasUndefined, Kind::JetUndefined, Kind::JetReserved, Kind::PatDupName, Kind::FnDuplicate, Kind::MainDuplicate,
     Kind::MainRemove, Kind::MainParam, Kind::MainResult, Kind::WitnessDup, Kind::WitnessInFn, Kind::MoveItemDown,
     Kind::FoldWrongFn, Kind::LoopWrongFn, Kind::BadArms, Kind::ParamDupName, Kind::DropFinalExpr, Kind::WrongLiteral,
-    Kind::SwapArgs, Kind::LeakVar, Kind::ShadowInner, Kind::ShadowOuter, Kind::ParamTwoTypes,
+    Kind::SwapArgs, Kind::LeakVar, Kind::ShadowInner, Kind::ShadowOuter, Kind::ParamTwoTypes, Kind::ItemAfterMain,
 ];
 
 impl Kind {
@@ -536,6 +537,21 @@ impl<'a> M<'a> {
                 }
                 return;
             }
+        }
+        // a function defined after main (nothing calls it): plain (well-typed), reading a witness
+        // (only main may), calling main's helpers, or with an ill-typed body
+        if main_idx.is_some() && self.hit(Kind::ItemAfterMain) {
+            let body = match self.t.index(4) {
+                0 => Expr::Block(vec![Stmt::Let(Pat::Id("late".into()), Ty::UInt(8), Expr::Int(U256::from_u128(7), 8, LitStyle::Dec))], None),
+                1 => Expr::Block(vec![Stmt::Let(Pat::Ignore, Ty::UInt(8), Expr::Witness("LATE_WITNESS".into()))], None),
+                2 => Expr::Block(vec![Stmt::Let(Pat::Ignore, Ty::UInt(8), Expr::Bool(true))], None),
+                _ => {
+                    let w = if self.wit_names.is_empty() { "LATE_WITNESS".to_string() } else { self.wit_names[self.t.index(self.wit_names.len())].clone() };
+                    Expr::Block(vec![Stmt::Let(Pat::Ignore, Ty::UInt(8), Expr::Witness(w))], None)
+                }
+            };
+            p.items.push(Item::Fn(FnDef { name: "defined_after_main".into(), params: vec![], ret: None, body }));
+            return;
         }
         if n_items >= 2 && self.hit(Kind::MoveItemDown) {
             // move a non-main item to the end (below everything that might use it)
